@@ -117,6 +117,10 @@ inductive SetOp (K Q : Type) where
   | fmt (kind : FmtKind)
   | drop | forget
   | serde (dst : Nat)
+  /-- `self.extend(other)` with `other` a `Set` that is MOVED in (`Extend<T> for Set<T, N>` fed with
+      `SetIntoIter`): the set register `other` is consumed; afterwards it holds a fresh `new()` of
+      its capacity. -/
+  | extend_from (other : Nat)
 
 inductive Op (K V Q : Type) where
   | map (reg : Nat) (op : MapOp K V Q)
